@@ -9,8 +9,9 @@ from .. import families, lib, reglib, blocklib as bl
 
 TMP = os.path.join(lib.WORK, "tmp_c16")
 ENCODINGS = ["utf-8", "latin-1", "cp1252", "utf-16"]
-WORDS = {"utf-8": ["çãé", "naïve €", "٣٤ 😀", "plain"], "utf-16": ["çãé", "naïve €", "٣٤ 😀", "plain"],
-         "latin-1": ["çãé", "ñü ¿", "plain", "þÿ"], "cp1252": ["çãé", "naïve €", "plain", "œ™"]}
+WORDS = {"utf-8": ["çãé", "naïve €", "٣٤ 😀", "plain", "a\x85b", "x\u2028y", "p\x0cq", "s\x1ct", "u\u2029v"],
+         "utf-16": ["çãé", "naïve €", "٣٤ 😀", "plain", "a\x85b", "x\u2028y", "p\x0bq"],
+         "latin-1": ["çãé", "ñü ¿", "plain", "þÿ", "a\x85b", "p\x0cq", "s\x1dt"], "cp1252": ["çãé", "naïve €", "plain", "œ™", "p\x0cq", "s\x1et"]}
 
 
 def file_class(fam, binary, enc):
